@@ -625,8 +625,12 @@ func drawWant(rt *rapid.T, res []Res) Res {
 	return r
 }
 
+// instance names: two of them extend another one by a digit, so that (instance, key) pairs
+// exist whose concatenations coincide ("VRF-1"+"23" and "VRF-12"+"3")
+var niNames = []string{"DEFAULT", "VRF-A", "VRF-B", "VRF-1", "VRF-12", "VRF-1"}
+
 func drawEntry(rt *rapid.T) Entry {
-	e := Entry{NI: []string{"DEFAULT", "VRF-A", "VRF-B"}[rapid.IntRange(0, 2).Draw(rt, "ni")]}
+	e := Entry{NI: niNames[rapid.IntRange(0, len(niNames)-1).Draw(rt, "ni")]}
 	e.Kind = gen.Kinds[rapid.IntRange(0, 4).Draw(rt, "kind")]
 	switch e.Kind {
 	case gen.V4:
@@ -697,9 +701,21 @@ func drawCase(rt *rapid.T) Case {
 				c.WantE = append(c.WantE, c.Got[rapid.IntRange(0, len(c.Got)-1).Draw(rt, "which")])
 			} else if len(c.Got) > 0 && rapid.Bool().Draw(rt, "near-miss") {
 				e := c.Got[rapid.IntRange(0, len(c.Got)-1).Draw(rt, "which")]
-				switch rapid.IntRange(0, 2).Draw(rt, "miss") {
+				switch rapid.IntRange(0, 3).Draw(rt, "miss") {
+				case 3:
+					// the boundary between instance name and key moved by one character; the
+					// shorter-named instance is made to appear in the response as well
+					if l := len(e.NI); l > 0 && e.NI[l-1] >= '0' && e.NI[l-1] <= '9' && e.Kind != gen.V6 {
+						e.Key, e.NI = e.NI[l-1:]+e.Key, e.NI[:l-1]
+						if other := (Entry{NI: e.NI, Kind: gen.NH, Key: "1"}); !seen[other] {
+							seen[other] = true
+							c.Got = append(c.Got, other)
+						}
+					} else {
+						e.NI = "VRF-12"
+					}
 				case 0:
-					e.NI = map[string]string{"DEFAULT": "VRF-A", "VRF-A": "VRF-B", "VRF-B": "DEFAULT"}[e.NI]
+					e.NI = map[string]string{"DEFAULT": "VRF-A", "VRF-A": "VRF-B", "VRF-B": "VRF-1", "VRF-1": "VRF-12", "VRF-12": "DEFAULT"}[e.NI]
 				case 1:
 					k := drawEntry(rt)
 					e.Kind, e.Key = k.Kind, k.Key
